@@ -156,6 +156,7 @@ class Hooks:
         self.merges = []
         self.record = record
         self.oob = []
+        self.seq = []            # ("build", index into builds) / ("merge",) in call order
 
     def __enter__(self):
         from nifty.re import hmc
@@ -185,6 +186,7 @@ class Hooks:
         def build(key, initial_tree, step_size, go_right, stepper, *a, **kw):
             rec = {"events": [], "depth": int(initial_tree.depth), "steps": 0, "adds": [], "go_right": bool(go_right)}
             hk.builds.append(rec)
+            hk.seq.append(("build", len(hk.builds) - 1))
 
             def counting(*sa):
                 rec["steps"] += 1
@@ -192,6 +194,7 @@ class Hooks:
             t = s["iterative_build_tree"](key, initial_tree, step_size, go_right, counting, *a, **kw)
             rec["logweight"] = float(t.logweight)
             rec["turning"] = bool(t.turning)
+            rec["diverging"] = bool(t.diverging)
             rec["out_depth"] = int(t.depth)
             return t
 
@@ -213,6 +216,7 @@ class Hooks:
             return out
 
         def merge(key, cur, new, go_right, bias_transition):
+            hk.seq.append(("merge",))
             hk.proxy.ctx = "merge"
             n0 = len(hk.proxy.log)
             out = s["merge_trees"](key, cur, new, go_right, bias_transition)
@@ -621,9 +625,15 @@ def nuts_cases(ctx):
     out = []
     for i in range(10 if ctx.quick else 30):
         spec, imm, eps, q, p = gen_common(rng)
-        out.append({"kind": "nuts", "spec": spec, "imm": imm, "eps": eps, "q": q, "p": p,
-                    "seed": int(rng.integers(0, 2 ** 31)), "depth": int(rng.integers(2, 5 if ctx.quick else 7)),
-                    "bias": bool(i % 2)})
+        c = {"kind": "nuts", "spec": spec, "imm": imm, "eps": eps, "q": q, "p": p,
+             "seed": int(rng.integers(0, 2 ** 31)), "depth": int(rng.integers(2, 5 if ctx.quick else 7)),
+             "bias": bool(i % 2)}
+        if i % 3 == 2:
+            # hard wall (potential +inf beyond q_0 = t) close to the start and a finite divergence threshold
+            c["spec"] = dict(spec, bar=[q[0] + 0.25, "inf"])
+            c["maxd"] = 1000.0
+            c["eps"] = 0.5
+        out.append(c)
     return out
 
 
@@ -679,7 +689,8 @@ class C32(C.Check):
         if k == "hmc":
             return run_hmc_step(c["spec"], c["imm"], c["eps"], c["q"], c["p"], c["n"], c["seed"], c["maxd"], c["eager"])
         if k == "nuts":
-            t, hk = run_nuts(c["spec"], c["imm"], c["eps"], c["q"], c["p"], c["seed"], c["depth"], c["bias"])
+            t, hk = run_nuts(c["spec"], c["imm"], c["eps"], c["q"], c["p"], c["seed"], c["depth"], c["bias"],
+                             maxd=float(c.get("maxd", math.inf)))
             return {"tree": t, "hk": hk}
         raise ValueError(k)
 
@@ -715,6 +726,11 @@ class C32(C.Check):
                     keeps = [p for (cx, p, _) in hk.proxy.log if cx == "add"]
                     b["_ws"] = ws
                     res.append(("prog", None, b, ref, w0, ws))
+            for si, it in enumerate(hk.seq):
+                if it[0] == "build":
+                    b = hk.builds[it[1]]
+                    merged = si + 1 < len(hk.seq) and hk.seq[si + 1][0] == "merge"
+                    res.append(("merge-guard", "merge_guard_case %s %s %s" % (C.cbool(b["turning"]), C.cbool(b["diverging"]), C.cbool(merged))))
             for (lq, lp, rq, rp, out) in hk.uturns[:40]:
                 res.append(("uturn", "uturn_case %d %s %s %s %s %s" % (d, cvec(lq), cvec(lp), cvec(rq), cvec(rp), C.cbool(out))))
             for m in hk.merges:
@@ -854,7 +870,7 @@ class C32(C.Check):
             "rule": "generated potentials V = b.q + q.A.q/2 + sum c q^4/4 (dyadic parameters, d<=3, optional NaN/+inf barrier), dyadic states, step sizes, diagonal masses; "
                     "lf: n real leapfrog steps vs translated step in Q (rel. tol 1e-9); hmc: generate_hmc_acc_rej (eager, 1 in 10 compiled) vs model incl. accept decision replayed from the uniform draw, divergence flag, both returned points; "
                     "nuts: per iterative_build_tree call the exact sequence of checkpoint writes/reads, U-turn decisions on the recorded float arguments, keep/merge probabilities vs progressive-sampling model; bits: popcount / count_trailing_ones exact. "
-                    "momentum: sample_momentum_from_diagonal on pytrees with several equal-shaped leaves (dict, nested, tuple, Vector): the sub-key index that reproduces each leaf bit for bit against leaf_keys; resume: k segments of n samples continued from the returned core state against one run of k*n samples (float64 bit patterns, HMC and NUTS) and the number of key advances of every returned key. mass: mass_matrix_sqrt of HMCChain / NUTSChain against inverse_mass_matrix entry by entry for non-unit scalar, anisotropic array and Vector masses (mass_case). distinct = classes (kind, dimension/steps/quartic | accept, diverging, barrier | depth, turning, bias | tree, leaves | sampler, n, k)",
+                    "momentum: sample_momentum_from_diagonal on pytrees with several equal-shaped leaves (dict, nested, tuple, Vector): the sub-key index that reproduces each leaf bit for bit against leaf_keys; resume: k segments of n samples continued from the returned core state against one run of k*n samples (float64 bit patterns, HMC and NUTS) and the number of key advances of every returned key. nuts cases with a hard wall and finite max_energy_difference: whether each new sub-tree was merged against merge_guard(turning, diverging); mass: mass_matrix_sqrt of HMCChain / NUTSChain against inverse_mass_matrix entry by entry for non-unit scalar, anisotropic array and Vector masses (mass_case). distinct = classes (kind, dimension/steps/quartic | accept, diverging, barrier | depth, turning, bias | tree, leaves | sampler, n, k)",
             "samples": [_js(c) for c in self.cases[:2]],
             "input_distribution": dist, "disagreements": len(bad), "exhaustive": False,
         })
@@ -891,7 +907,11 @@ class C32(C.Check):
         todo.append({"kind": "nutsinv", "spec": spec, "imm": imm, "eps": 0.5, "q": q, "p": p, "depth": 1, "bias": True})
         spec, imm, eps, q, p = gen_common(ctx.rng(3212), d=2)
         todo.append({"kind": "nutsinv", "spec": spec, "imm": imm, "eps": 0.375, "q": q, "p": p, "depth": 1, "bias": False})
+        wall = {"d": 1, "A": [[1.0]], "b": [0.0], "c": [0.0], "bar": [0.0, "inf"]}
+        todo.append({"kind": "nutsinv", "spec": wall, "imm": [1.0], "eps": 0.25, "q": [-0.25], "p": [1.0], "depth": 1, "bias": True, "maxd": 1000.0})
+        todo.append({"kind": "nutsinv", "spec": wall, "imm": [1.0], "eps": 0.5, "q": [-0.5], "p": [0.75], "depth": 1, "bias": False, "maxd": 1000.0})
         if not ctx.quick:
+            todo.append({"kind": "nutsinv", "spec": dict(wall, A=[[0.5]], b=[0.25]), "imm": [2.0], "eps": 0.25, "q": [-0.125], "p": [-0.5], "depth": 1, "bias": True, "maxd": 1000.0})
             spec, imm, eps, q, p = gen_common(ctx.rng(3213), d=1)
             todo.append({"kind": "nutsinv", "spec": spec, "imm": imm, "eps": 0.5, "q": q, "p": p, "depth": 2, "bias": True, "procs": 4})
             for tg in ("gauss1", "gauss2", "quartic"):
@@ -1085,7 +1105,7 @@ def _direct_chain(c):
     return None
 
 
-def _enumerate_kernel(spec, imm, eps, q, p, depth, bias, limit=20000):
+def _enumerate_kernel(spec, imm, eps, q, p, depth, bias, limit=20000, maxd=math.inf):
     """All outcomes of one NUTS transition from (q,p) with their exact probabilities, by forcing the
     Bernoulli outcomes and multiplying the probabilities the implementation computed."""
     out = []
@@ -1093,7 +1113,7 @@ def _enumerate_kernel(spec, imm, eps, q, p, depth, bias, limit=20000):
     runs = 0
     while stack:
         script = stack.pop()
-        t, hk = run_nuts(spec, imm, eps, q, p, 0, depth, bias, script=script, record=False)
+        t, hk = run_nuts(spec, imm, eps, q, p, 0, depth, bias, script=script, record=False, maxd=maxd)
         runs += 1
         if runs > limit:
             raise RuntimeError("kernel enumeration exceeds %d runs" % limit)
@@ -1113,8 +1133,9 @@ def _enumerate_kernel(spec, imm, eps, q, p, depth, bias, limit=20000):
 
 def _kernel_worker(job):
     _setup()
-    spec, imm, eps, q, p, depth, bias = job
-    outs, runs = _enumerate_kernel(spec, imm, eps, q, p, depth, bias, limit=200000)
+    spec, imm, eps, q, p, depth, bias = job[:7]
+    maxd = job[7] if len(job) > 7 else math.inf
+    outs, runs = _enumerate_kernel(spec, imm, eps, q, p, depth, bias, limit=200000, maxd=maxd)
     return [(pr, np.asarray(a), np.asarray(b)) for pr, a, b in outs], runs
 
 
@@ -1123,7 +1144,8 @@ def _direct_nuts_invariance(c):
     import jax.numpy as jnp
     from nifty.re import hmc
     spec, imm, eps, depth, bias = c["spec"], c["imm"], c["eps"], c["depth"], c["bias"]
-    s, V = make_sampler(spec, imm, eps, kind="nuts", max_tree_depth=depth, bias=bias)
+    maxd = float(c.get("maxd", math.inf))
+    s, V = make_sampler(spec, imm, eps, kind="nuts", max_tree_depth=depth, bias=bias, maxd=maxd)
     m = 2 ** (depth + 1) - 1
     z0 = hmc.QP(position=jnp.array(c["q"], dtype=jnp.float64), momentum=jnp.array(c["p"], dtype=jnp.float64))
     orbit = {0: z0}
@@ -1143,8 +1165,11 @@ def _direct_nuts_invariance(c):
         return best, dist
     total = 0.0
     nruns = 0
-    starts = list(range(-m, m + 1))
-    jobs = [(spec, imm, eps, pts[i][0].tolist(), pts[i][1].tolist(), depth, bias) for i in starts]
+    if not math.isfinite(H[0]):
+        return None
+    # start points outside the support (infinite energy) carry no mass: they do not enter the sum
+    starts = [i for i in range(-m, m + 1) if math.isfinite(H[i])]
+    jobs = [(spec, imm, eps, pts[i][0].tolist(), pts[i][1].tolist(), depth, bias, maxd) for i in starts]
     if c.get("procs", 1) > 1:
         import concurrent.futures
         import multiprocessing
@@ -1160,6 +1185,8 @@ def _direct_nuts_invariance(c):
             return ("nuts-kernel", "transition probabilities from orbit point %d sum to %.12f" % (i, mass))
         for pr, qq, pp in outs:
             j, dist = index_of(qq, pp)
+            if dist <= 1e-7 * max(1.0, np.max(np.abs(qq))) and not math.isfinite(H[j]):
+                return ("nuts-kernel", "NUTS started inside the support returns a point outside it (infinite potential) with probability %.6g" % pr)
             if dist > 1e-7 * max(1.0, np.max(np.abs(qq))):
                 return ("nuts-kernel", "NUTS returned a point that is not on the leapfrog orbit of its start (distance %.2e)" % dist)
             if j == 0:
